@@ -230,10 +230,123 @@ def ref_items_v(elt, v):
     for x in v: out += ref_items_s(elt, x)
     return out
 
-def ref_vhist(elt, v0, ops):
-    """expected item stream of a history under the reference model"""
+# ---- per-item error scales (B10).  Every float the reference predicts gets the magnitude S against which the allowed
+# relative difference is measured (|reference - implementation| <= rtol * S).  The scale of an ENTRY travels with the entry
+# (list U, parallel to the vector): an input (v0, a pushed / assigned / inserted value, a clone_from source) has U = 0, an
+# entry produced by element-wise arithmetic has the scale it was produced with, and moving / copying it keeps that scale --
+# an implementation that rounds an element-wise operation differently (within rtol) is not reported by a later dump.
+# With m_i = |x_i| + U_i (magnitude of entry i plus what it already carries):
+#   * a value that is only moved / copied / negated (edits, get, pop, field, clone, conj, real, f64 abs): S = U_i -- identical
+#     when the entry is an input or was itself only moved;
+#   * an element-wise product / quotient (scale, f64 * v, *=, /=, div, complex abs): S = m_i |s|, m_i / |s|, m_i: the magnitude
+#     of the result ITSELF, so an entry 1e-6 of the largest entry of the same vector is still held to rtol of itself and is
+#     never allowed to be 0 unless the reference is;
+#   * an element-wise sum / difference (cancellation possible): S = the larger operand magnitude of that entry + U_i;
+#   * a reduction (sum, dot, product, norms, slices): S = the sum of the m_i of the terms (product: their product; the
+#     root norms: their own value + the sum of the U_i; the maximum: the largest U_i) -- the scale of the standard backward
+#     error bound of ANY summation order.
+# Complex entries carry the modulus-wise S on both components.
+def _mag(x):
+    try: return float(abs(x))
+    except OverflowError: return math.inf
+
+def _sum(xs):
+    t = 0.0
+    for x in xs: t = t + x
+    return t
+
+def _prod(xs):
+    t = 1.0
+    for x in xs: t = t * x
+    return t
+
+def _quot(m, s):
+    return m / _mag(s) if s != 0 else 0.0
+
+def _expand_s(elt, S):
+    """scale of one element -> scales of its items"""
+    return [None] if elt == 'rat' else ([S] if elt == 'f64' else [S, S])
+
+def _expand_v(elt, Ss):
+    out = [None]
+    for S in Ss: out += _expand_s(elt, S)
+    return out
+
+def result_scales(elt, before, U, op, r):
+    """scales of the items of the RESULT r = ref_vstep(elt, ., op) computed on the vector `before` whose entries carry U"""
+    name, a = op[0], op[1:]
+    v = before; n = len(v)
+    m = [_mag(x) + u for x, u in zip(v, U)]
+    if r is None: return []
+    if r[0] == 'n': return [None]
+    if name == "pop": return _expand_s(elt, U[-1])
+    if name == "get": return _expand_s(elt, U[a[0]])
+    if name in ("sum", "norm_1"): return _expand_s(elt, _sum(m))
+    if name == "sum_slice": return _expand_s(elt, _sum(m[a[0]:a[1] + 1]))
+    if name == "product": return _expand_s(elt, _prod(m))
+    if name == "product_slice": return _expand_s(elt, _prod(m[a[0]:a[1] + 1]))
+    if name == "dot": return _expand_s(elt, _sum([t * _mag(y) for t, y in zip(m, a[0])]))
+    if name == "dot_self": return _expand_s(elt, _sum([t * t for t in m]))
+    if name in ("add", "sub"): return _expand_v(elt, [max(_mag(x), _mag(y)) + u for x, y, u in zip(v, a[0], U)])
+    if name in ("add_self", "sub_self"): return _expand_v(elt, m)
+    if name in ("neg", "field", "clone_into"): return _expand_v(elt, U)
+    if name in ("scale", "scale_l"): return _expand_v(elt, [t * _mag(a[0]) for t in m])
+    if name == "div": return _expand_v(elt, [_quot(t, a[0]) for t in m])
+    if name == "abs": return _expand_v(elt, m if elt == 'cplx' else U)
+    if name == "norms":
+        vals = [bits_f64(it[1]) for it in r[1]]
+        return [_sum(m), abs(vals[1]) + _sum(U), abs(vals[2]) + _sum(U), max(U)]
+    if name == "cxview":
+        return _expand_v('cplx', U) + _expand_v('f64', U) + _expand_v('cplx', m) + [max(m)]
+    if name == "dot_f64":
+        S = _sum([t * _mag(y) for t, y in zip(m, a[0])])
+        return [None, S, S, S]
+    if r[0] == 'items': return [None] * len(r[1])        # integers only (cmp, cmp_self)
+    raise ValueError("no scale rule for " + name)
+
+def carried_scales(elt, before, U, op, after):
+    """the scales the entries of `after` carry, `after` being `before` (entries carrying U) after the MUTATING operation op;
+    they are also the scales of the dump that follows the operation"""
+    name, a = op[0], op[1:]
+    n = len(before)
+    m = [_mag(x) + u for x, u in zip(before, U)]
+    if name in ("push", "clone_mut"): out = U + [0.0]
+    elif name == "push_front": out = [0.0] + U
+    elif name == "insert": out = U[:a[0]] + [0.0] + U[a[0]:]
+    elif name == "pop": out = U[:-1]
+    elif name == "swap":
+        out = list(U); out[a[0]], out[a[1]] = out[a[1]], out[a[0]]
+    elif name == "resize": out = U[:a[0]] + [0.0] * max(a[0] - n, 0)
+    elif name in ("assign", "clear", "clone_from"): out = [0.0] * len(after)
+    elif name == "set":
+        out = list(U); out[a[0]] = 0.0
+    elif name in ("sort", "sort_desc", "sort_absdesc"):
+        kf = (lambda x: (abs(x), x)) if name == "sort_absdesc" else (lambda x: _key(elt, x))
+        order = sorted(range(n), key=lambda i: kf(before[i]), reverse=(name != "sort"))
+        out = [U[i] for i in order]
+        i = 0                                            # equal keys may come out in any order: a run of ties shares its largest scale
+        while i < n:
+            j = i
+            while j + 1 < n and kf(before[order[j + 1]]) == kf(before[order[i]]): j += 1
+            top = max(out[i:j + 1])
+            for k in range(i, j + 1): out[k] = top
+            i = j + 1
+    elif name in ("add_assign", "sub_assign"): out = [max(_mag(x), _mag(y)) + u for x, y, u in zip(before, a[0], U)]
+    elif name in ("add_assign_s", "sub_assign_s"): out = [max(_mag(x), _mag(a[0])) + u for x, u in zip(before, U)]
+    elif name == "mul_assign_s": out = [t * _mag(a[0]) for t in m]
+    elif name == "div_assign_s": out = [_quot(t, a[0]) for t in m]
+    else: raise ValueError("no carry rule for " + name)
+    if len(out) != len(after): raise ValueError("carried scales out of step after " + name)
+    return out
+
+def ref_vhist(elt, v0, ops, scales=None):
+    """expected item stream of a history under the reference model; when `scales` is a list it receives, item for item,
+    the error scale of every predicted float (None for integers, rationals, panics)"""
     v = list(v0)
     out = ref_items_v(elt, v)
+    want = scales is not None and elt != 'rat'           # rationals are compared exactly: no scale
+    U = [0.0] * len(v)                                   # the scale every entry of v carries
+    sc = _expand_v(elt, U)
     for op in ops:
         snap = list(v)
         try:
@@ -241,16 +354,26 @@ def ref_vhist(elt, v0, ops):
             if r is not None:
                 if r[0] == 'items': out += r[1]
                 else: out += ref_items_s(elt, r[1]) if r[0] == 's' else (ref_items_v(elt, r[1]) if r[0] == 'v' else [('i', r[1])])
-            if op[0] in MUTATING: out += ref_items_v(elt, v)
+                if want: sc += result_scales(elt, snap, U, op, r)
+            if op[0] in MUTATING:
+                out += ref_items_v(elt, v)
+                if want:
+                    U = carried_scales(elt, snap, U, op, v)
+                    sc += _expand_v(elt, U)
         except RefPanic:
             v = snap
             out += [('P', 'any')]
             out += ref_items_v(elt, v)
+            if want: sc += [None] + _expand_v(elt, U)
+    if want and len(sc) != len(out): raise ValueError("scale list out of step with the reference stream")
+    if scales is not None: scales[:] = sc if want else [None] * len(out)
     return out
 
-def streams_match(exp, got, rtol):
-    """structure, integers, rationals and panic-vs-value exactly; floats within rtol relative to the largest magnitude
-    of the run of consecutive floats they belong to (rtol = 0: bitwise up to the sign of zero).  None or a description."""
+def streams_match(exp, got, rtol, scales=None):
+    """structure, integers, rationals and panic-vs-value exactly; floats: where `scales` gives the item a scale S, within
+    rtol * S of the reference (S = 0: identical up to the sign of zero; see the table above ref_vhist) -- otherwise (callers
+    without a scale list) within rtol relative to the largest magnitude of the run of consecutive floats they belong to
+    (rtol = 0: bitwise up to the sign of zero).  None or a description."""
     if len(exp) != len(got):
         k = 0
         while k < min(len(exp), len(got)) and (exp[k] == got[k] or exp[k][0] == got[k][0] in ('P', 'f')):
@@ -274,6 +397,13 @@ def streams_match(exp, got, rtol):
             if abs(x) == math.inf or abs(y) == math.inf:
                 if x != y: return "item %d: reference %r, implementation %r" % (i, x, y)
                 continue
-            if abs(x - y) > rtol * scale:
-                return "item %d: reference %r, implementation %r (allowed relative difference %g)" % (i, x, y, rtol)
+            S = scales[i] if scales is not None else None
+            if S is None:
+                allowed = rtol * scale
+            else:
+                if S != S or S == math.inf: continue            # the scale itself overflowed: nothing is claimed for this item
+                allowed = (rtol * S + 1e-300) if (rtol > 0 and S > 0) else 0.0
+            if not (abs(x - y) <= allowed):
+                return "item %d: reference %r, implementation %r (allowed difference %g = %g relative to %s)" % (
+                    i, x, y, allowed, rtol, "the run of floats" if S is None else "the item's own scale %g" % S)
     return None
